@@ -147,7 +147,10 @@ CLAIMED = {
     'C03': dict(
         category='fault_enumeration',
         text='What is a theorem (Coq, axiom-free): C03_weight0 -- every codeword vector of every size passes the error decoder unchanged; '
-             'C03_success_is_codeword -- for ANY number of errors a successful result is a codeword (no half-corrected output, from C09). '
+             'C03_success_is_codeword -- for ANY number of errors a successful result is a codeword (no half-corrected output, from C09); '
+             'C03_bch_bound / C03_min_distance / C03_unique_within_radius -- the BCH bound for the code of the standard: codeword blocks differing in '
+             'at most k positions are equal, so within distance floor(k/2) of any received block there is at most one codeword (the mathematical '
+             'content of "guaranteed capacity"; all block lengths are <= 255, C03_block_lengths). '
              'What is NOT a theorem: completeness for weights 1..floor(k/2) (correctness of the Levinson-Durbin recursion with singular-case '
              'step and of the Bjoerck-Pereyra solver; no formalisation exists, out of reach here) and uniqueness of the result within the '
              'radius. The property is therefore decided by fault enumeration on the implementation, tied to the Coq model of the decoder by '
